@@ -38,7 +38,7 @@ ASSUMPTIONS = ['CPython list semantics (insert clamps, pop/index raise IndexErro
 def _plans(ctx):
     """[(label, pool, depth, prefix depth)]; the `pair` plans run over two argument lists from every
     prefix of lib_args.PAIR_PREFIXES (their `depth` counts the operations after the prefix)"""
-    plans = [('bfs3', A.POOL_TWINS, 3, 1), ('pair2', A.POOL_PAIR, 2, 1)]
+    plans = [('bfs3', A.POOL_TWINS, 3, 1), ('pair2', A.POOL_PAIR, 2, 1), ('parsed2', A.POOL_PARSED, 2, 1)]
     if ctx.thorough:
         plans.append(('bfs4-small', A.POOL_SMALL, 4, 2))
         plans.append(('pair3', A.POOL_PAIR, 3, 1))
@@ -50,17 +50,21 @@ def _units(plan):
     if label.startswith('pair'):
         return [(label, pool, p, depth - pre) for start in A.PAIR_PREFIXES
                 for p in A.bfs_pair(start, pre, pool)]
+    if label.startswith('parsed'):
+        return [(label, pool, p, depth - pre) for start in A.PARSED_PREFIXES
+                for p in A.bfs_parsed(start, pre, pool)]
     return [(label, pool, p, depth - pre) for p in A.bfs_extend([], pre, pool)]
 
 
 def _unit_histories(u):
     label, pool, prefix, rest = u
-    return (A.bfs_pair if label.startswith('pair') else A.bfs_extend)(prefix, rest, pool)
+    f = A.bfs_pair if label.startswith('pair') else A.bfs_parsed if label.startswith('parsed') else A.bfs_extend
+    return f(prefix, rest, pool)
 
 
 def _nontrivial(ops):
     """at least two operations, one of which puts something into a list"""
-    return len(ops) >= 2 and any((o[2:] if o.startswith('o:') else o)[0] in 'aiexy' for o in ops)
+    return len(ops) >= 2 and any((o[2:] if o.startswith('o:') else o)[0] in 'aiexyXI' for o in ops)
 
 
 def _line(ops):
@@ -123,7 +127,11 @@ def correspondence(ctx):
               + '; '.join('ALL sequences of %d ops over a pool of %d items with indices -(n+2)..n+2 (%s)' % (
                   p[2], len(p[1]), p[0]) for p in plans)
               + "; bfs3 pool = unparsed '{a}', two positioned twin objects {a}@3 {a}@7, '[b]', whitespace, "
-                "mismatched '{x]'; pair plans = two argument lists (of two commands): from each of %d start "
+                "mismatched '{x]'; parsed plans = from each of %d start states built on the argument lists of a "
+                'PARSED document (op `I`: the .args of \\o and \\q of lib_args.PROBE, groups with child nodes: a '
+                'command, $..$, an inner group, an environment) ALL sequences over a pool of strings and fresh '
+                'objects that print like those parsed groups but have another shape, the parsed objects themselves '
+                "(P<k>/Q<k>) and a flat twin; pair plans = two argument lists (of two commands): from each of %d start "
                 'states (front insertion into a non-empty list, the same object twice, whitespace - on either '
                 'list) ALL sequences over the single-list operations on either list plus extend by a TexArgs '
                 "OBJECT (own slice `x:lo:hi`, the other list `y`/`o:y`), pool = unparsed '{a}', a shared object, "
@@ -131,7 +139,7 @@ def correspondence(ctx):
                 'operation that does not return within the watchdog answers HANG; random histories up to 40 ops over both lists and %d items '
                 '(twins at different positions, shared objects, TexCmd, TexNamedEnv, TexText, malformed strings) '
                 'including x/y; non-trivial = at least 2 ops including an insertion'
-              % (len(A.PAIR_PREFIXES), len(A.RANDOM_ITEMS)))
+              % (len(A.PARSED_PREFIXES), len(A.PAIR_PREFIXES), len(A.RANDOM_ITEMS)))
     r.exhaustive = True
     return r
 
@@ -217,6 +225,10 @@ def _oracle_steps(ops, cur):
 
     for step, op in enumerate(ops):
         cur[0], cur[1] = step, op
+        if op == 'I' and step == 0:                 # the argument lists of the parsed probe document
+            for sd, ex in zip(sides, A._probe(shared)):
+                sd.owner, sd.args, sd.lst = ex, ex.args, list(list.__iter__(ex.args))
+            continue
         swapped = op.startswith('o:')
         me, you = (sides[1], sides[0]) if swapped else sides
         op1 = op[2:] if swapped else op
@@ -279,8 +291,17 @@ def _oracle_steps(ops, cur):
             if bad_string:
                 want_exc = TypeError
             else:
-                probe = p[1](p[2][1:-1]) if p[0] == 'new' else x
-                want_exc, _ = run(lambda: lst.remove(probe))
+                # groups are equal when they print the same (TexExpr.__eq__ of the clean code); the list
+                # side does not go through the implementation's `==`
+                text = p[2] if p[0] == 'new' else str(x)
+
+                def list_remove():
+                    for j, e in enumerate(lst):
+                        if str(e) == text:
+                            del lst[j]
+                            return
+                    raise ValueError(text)
+                want_exc, _ = run(list_remove)
             got_exc, _ = watched(lambda: args.remove(x))
         elif k == 'p':
             want_exc, want_val = run((lambda: lst.pop(int(rest))) if rest else (lambda: lst.pop()))
@@ -361,7 +382,7 @@ def _oracle_steps(ops, cur):
 
 def _is_group_item(word):
     """items inside the property's domain: unparsed strings and group objects"""
-    return ':' not in word or word.startswith('g') or word.startswith('h')
+    return ':' not in word or word.startswith('g') or word[:1] in 'hPQ'
 
 
 _ORACLE_ITEMS = [w for w in A.RANDOM_ITEMS if _is_group_item(w)] + ['h0', 'h0', 'h1', 'h2']
@@ -432,8 +453,11 @@ def oracle(ctx, seeds, scale):
               'a string with mismatched delimiters raises TypeError and leaves the list unchanged (extend keeps the '
               'items before it, like list.extend); extending by a TexArgs OBJECT (a slice of the list itself, or the '
               '.args of a second command kept in the same history) is list.extend by its elements in list order, and '
-              'leaves the source as it is - both commands are checked after every step.  Families: the exhaustive '
-              'ones of the correspondence (one list; two lists from start states with front insertions / the same '
+              'leaves the source as it is - both commands are checked after every step; equality of groups is '
+              'TEXTUAL (list.remove on the list side takes the first element that prints like the operand, whatever '
+              'its shape - parsed with child nodes or made from a string).  Families: the exhaustive '
+              'ones of the correspondence (one list; the argument lists of a parsed document with strings / fresh '
+              'objects printing like its groups; two lists from start states with front insertions / the same '
               'object twice), random histories up to 40 ops over both lists and unparsed strings (good, malformed, '
               'whitespace), positioned twins and three shared objects that can be in a list twice.  Whitespace '
               'strings are not arguments (list unchanged).  `args.extend(args)` (op X) doubles the list like a '
